@@ -93,7 +93,7 @@ Definition pbind_exn (r : outcome * list ev) (h : outcome * list ev) : outcome *
 Fixpoint plain_exec (c : code) (env : list pyval) : outcome * list ev :=
   match c with
   | Ret e => (OVal (eval env e), [])
-  | Raise ty => (OExn (EUser ty), [])
+  | Raise ty => (OExn (exn_of_name ty), [])
   | Interrupt => (OInt, [])
   | Inp cf body args kwargs k =>
       let a := map (eval env) args in let kw := eval_kw env kwargs in
@@ -220,7 +220,7 @@ Section Rec.
   Fixpoint rec_exec (c : code) (env : list pyval) (s : rst) : res :=
     match c with
     | Ret e => (OVal (eval env e), s, [])
-    | Raise ty => (OExn (EUser ty), s, [])
+    | Raise ty => (OExn (exn_of_name ty), s, [])
     | Interrupt => (OInt, s, [])
     | Inp cf body args kwargs k =>
         let a := map (eval env) args in let kw := eval_kw env kwargs in
@@ -340,7 +340,7 @@ Section Play.
   Fixpoint play_exec (c : code) (env : list pyval) (s : pst) : pres :=
     match c with
     | Ret e => (OVal (eval env e), s, [])
-    | Raise ty => (OExn (EUser ty), s, [])
+    | Raise ty => (OExn (exn_of_name ty), s, [])
     | Interrupt => (OInt, s, [])
     | Inp cf body args kwargs k =>
         let a := map (eval env) args in let kw := eval_kw env kwargs in
